@@ -21,10 +21,18 @@ u32 vp_sink(u32 id, u32 v) {
   if (pending[id] && acc) { pending[id] = 0; registered[id] = 1; }
   return (u32)acc;
 }
+static int pq[8]; static unsigned pqn;   /* successors whose registration is being retried, in task order */
 static void run_one(void) { if (bag_n) { void* t = bag[0]; for (unsigned i = 0; i + 1 < BAGMAX; i++) bag[i] = bag[i + 1]; bag_n--;
-    in_op = 1; offered_mask = 0; expect_val = cur; void* bp = vp_run_task(t); in_op = 0; VP_ASSERT(bp == 0, "unexpected bypass task"); } }
+    VP_ASSERT(pqn > 0, "a task exists although no registration is pending");
+    int id = pq[0]; for (unsigned i = 0; i + 1 < 8; i++) pq[i] = pq[i + 1]; pqn--;
+    unsigned bag0 = bag_n;
+    in_op = 1; offered_mask = 0; expect_val = cur; void* bp = vp_run_task(t); in_op = 0; VP_ASSERT(bp == 0, "unexpected bypass task");
+    if (!valid) { VP_ASSERT(offered_mask == 0, "offer without a value"); pending[id] = 0; registered[id] = 1; }   /* value cleared meanwhile: plain registration */
+    else VP_ASSERT(offered_mask == (1u << id), "retry task did not offer the held value to the successor being registered");
+    if (pending[id]) { VP_ASSERT(bag_n == bag0 + 1 && pqn < 8, "refused again but no new retry task"); pq[pqn++] = id; }
+    else VP_ASSERT(bag_n == bag0, "retry task spawned although the successor is registered now"); } }
 static void run(unsigned accpat) {
-  cur = 0; valid = 0; registered[0] = registered[1] = pending[0] = pending[1] = 0; noffer = 0; acc_bits = accpat; fg_reset();
+  cur = 0; valid = 0; registered[0] = registered[1] = pending[0] = pending[1] = 0; noffer = 0; acc_bits = accpat; pqn = 0; fg_reset();
   vp_init();
   for (int s = 0; s < NOPS; s++) {
     int op = ops[s]; int out = (int)vp_nd(), out0 = out;
@@ -37,17 +45,17 @@ static void run(unsigned accpat) {
     else if (op == 2 || op == 3) { unsigned r = op == 2 ? vp_get(&out) : vp_reserve(&out);
       VP_ASSERT(r == (unsigned)valid, "try_get/try_reserve: succeeds iff a value is held");
       if (r) VP_ASSERT(out == cur, "try_get/try_reserve: not the latest/first value"); else VP_ASSERT(out == out0, "failed get wrote output"); }
-    else if (op == 40 || op == 41) { int id = op - 40; if (registered[id] || pending[id]) return;
+    else if (op == 40 || op == 41) { int id = op - 40; if (registered[id] || pending[id]) continue;
       in_op = 1; offered_mask = 0; expect_val = cur; pending[id] = 1; vp_add_succ((unsigned)id); in_op = 0;
       if (!valid) { VP_ASSERT(offered_mask == 0, "offer without a value"); pending[id] = 0; registered[id] = 1; }
-      else VP_ASSERT(offered_mask == (1u << id), "new successor was not offered the held value at registration"); }
-    else if (op == 6) { if (!bag_n) return; run_one(); }
+      else { VP_ASSERT(offered_mask == (1u << id), "new successor was not offered the held value at registration"); if (pending[id]) pq[pqn++] = id; } }
+    else if (op == 6) { if (!bag_n) continue; run_one(); }
     else if (op == 8) { vp_clear(); valid = 0; }
     VP_ASSERT((vp_valid() != 0) == (valid != 0), "my_buffer_is_valid differs from the abstract state");
-    VP_ASSERT((pending[0] || pending[1]) == (bag_n != 0) || !valid, "a refused registration has no retry task pending (successor would never get the value)");
+    VP_ASSERT(pqn == bag_n, "number of retry tasks differs from the number of refused registrations (a successor would never get the value)");
   }
   for (int i = 0; i < BAGRUNS; i++) run_one();
-  if (bag_n == 0) VP_ASSERT(!pending[0] && !pending[1], "registration still pending without a retry task");
+  VP_ASSERT(pqn == bag_n, "registration still pending without a retry task");
   VP_ASSERT(n_alloc - n_free == bag_n, "task accounting: allocated - freed != tasks alive");
   nrun++;
 }
